@@ -136,6 +136,10 @@ def generate(rng, tier):
     nj = rng.randrange(1, 6) if rng.random() > 0.02 else 0
     nm = rng.randrange(1, 5)
     machines = rng.sample(range(0, 8), nm)  # gaps in machine indices
+    if rng.random() < 0.03:
+        # "any machine indices": labels are names, not sizes (plant codes, ids) - far beyond anything one could allocate per label
+        base = rng.choice([2 ** 60, 2 ** 63, 2 ** 64 + 12345])
+        machines = [base + 7 * k for k in machines]
     jobs = []
     for _ in range(nj):
         jobs.append([[rng.choice(machines), rng.choice([0, 0, 1, 2, 3, 5, 9])] for _ in range(rng.randrange(1, 6))])
@@ -521,7 +525,7 @@ def run_jobshop(case, policy, jobs):
         with seams.install_rng(RNG_MODULES, plan), seams.install_clock(clock):
             res = m.solve_job_shop(jobs, rule=case["rule"], local_search=case["local_search"], max_iter=case["max_iter"], seed=case["seed"],
                                    on_progress=prog if case["interval"] else None, progress_interval=case["interval"])
-    except SOLVER_ERRORS as e:
+    except SOLVER_ERRORS + (MemoryError,) as e:  # a table sized by the largest machine label, not by the number of machines
         exc = e
     return {"res": res, "exc": exc, "prog": prog, "plan": plan, "jobs": jobs}
 
